@@ -17,6 +17,7 @@ func init() {
 			"PV-WHOLE: the assembled result of topk/bottomk/sort is never cut after the per-group selection",
 			"PV-FRESH per-step group tables; PV-NUM: no aggregator accumulates the raw square of its input",
 			"PV-NUM sum: Apply is state += v, Result the state (no Inf - Inf); PV-INJKEY/MO: the grouping key of the retained labels is injective and independent of map iteration order",
+			"CH-MAP token -> vector/range operation tables of the parser",
 		},
 		NotDecided: []string{"aggregate arithmetic (Welford, NaN handling)", "final ordering for ties", "container/heap correctness"},
 		Rules: func(r *Run) {
@@ -34,6 +35,7 @@ func init() {
 			ruleSumAggregatorPlain(r)
 			ruleKeyEncoders(r) // one group per distinct retained label combination: the grouping key is injective and order-independent
 			ruleMO(r, 10, "aggregatedLabels", "newAggregatedLabels")
+			ruleCHParseSites2(r) // the operator a query spells is the operator that is evaluated (sort_desc is not sort)
 		},
 	})
 }
